@@ -105,6 +105,14 @@ class Monitor(object):
 
     def visit(self, ind, r, opt):
         """time identities of one completed visit at a pre-emptive node"""
+        # the samples of THIS visit: those not attributed to an earlier visit of the same node and drawn no later than
+        # the final service start (a customer that comes straight back draws its next sample at this visit's exit instant)
+        if not hasattr(self, "used"):
+            self.used = {}
+        allsmp = self.samples.get((r.node, r.id_number), [])
+        k0 = self.used.get((r.node, r.id_number), 0)
+        smp = [(t, v) for (t, v) in allsmp[k0:] if r.arrival_date <= t <= r.service_start_date]
+        self.used[(r.node, r.id_number)] = k0 + len(smp)
         recs = [x for x in ind.data_records if x.node == r.node and x.arrival_date == r.arrival_date
                 and x.record_type in ("interrupted service", "service") and x.exit_date <= r.exit_date]
         inter = [x for x in recs if x.record_type == "interrupted service"]
@@ -120,7 +128,6 @@ class Monitor(object):
             if any(b.is_blocked for b in [ind]) or opt == "reroute":
                 return
         self.hub.flags.add("visit_with_interruption")
-        smp = [(t, v) for (t, v) in self.samples.get((r.node, r.id_number), []) if r.arrival_date <= t <= r.exit_date]
         ctx = {"id": r.id_number, "node": r.node, "option": opt, "samples": smp,
                "interruptions": [[x.service_start_date, x.exit_date, x.service_time] for x in inter],
                "final": [r.service_start_date, r.service_end_date, r.service_time]}
